@@ -246,6 +246,38 @@ func c11Bare(f string) (string, bool) {
 	return f, false
 }
 
+// c11LongFamily: 2-3 distinct strings of equal length 257..2000 sharing a prefix of at least
+// 256 bytes, and one with the same prefix but another length. Free of the key delimiters.
+func c11LongFamily(rng *verifkit.Rand) []any {
+	unit := verifkit.Pick(rng, "SELECT * FROM orders WHERE customer_id = 4711 AND ", "https://api.example.com/v1/accounts/4711/items?cursor=", "x")
+	total := verifkit.Pick(rng, 257, 258, 300, 512, 1000, 2000, rng.Range(257, 2000))
+	tailLen := rng.Range(1, 4)
+	if total-tailLen < 256 {
+		tailLen = total - 256
+	}
+	prefix := strings.Repeat(unit, total/len(unit)+1)[:total-tailLen]
+	var out []any
+	seen := map[string]bool{}
+	for len(out) < rng.Range(2, 3) {
+		tail := rng.Hex(tailLen)
+		if !seen[tail] {
+			seen[tail] = true
+			out = append(out, prefix+tail)
+		}
+	}
+	return append(out, prefix+rng.Hex(tailLen+1))
+}
+
+// c11LongSibling: same length, same first len-3 bytes, different tail.
+func c11LongSibling(rng *verifkit.Rand, s string) string {
+	for {
+		t := s[:len(s)-3] + rng.Hex(3)
+		if t != s {
+			return t
+		}
+	}
+}
+
 func c11GenTrace(rng *verifkit.Rand, fields []string, dirty bool) c11trace {
 	n := rng.Range(1, 8)
 	tr := c11trace{Root: -1, Spans: make([]c11span, n)}
@@ -262,6 +294,12 @@ func c11GenTrace(rng *verifkit.Rand, fields []string, dirty bool) c11trace {
 			pool[j] = c11GenValue(rng, dirty)
 		}
 		p := verifkit.Pick(rng, 0.3, 0.6, 0.9)
+		if rng.Chance(0.12) {
+			// long values (SQL, URLs) that share a long prefix: same length with different
+			// tails, plus one of another length as a control
+			pool = c11LongFamily(rng)
+			p = 0.9
+		}
 		for i := range tr.Spans {
 			if rng.Chance(p) {
 				tr.Spans[i][name] = pool[rng.Intn(len(pool))]
@@ -584,6 +622,22 @@ func c11Mutate(rng *verifkit.Rand, tr c11trace, fields []string) c11trace {
 	f := fields[rng.Intn(len(fields))]
 	bare, isRoot := c11Bare(f)
 	fresh := func() any {
+		if rng.Chance(0.6) {
+			for _, c := range c11ValueSet(out, f) {
+				if len(c) > 259 && c11ASCII(c) {
+					sib := c11LongSibling(rng, c)
+					dup := false
+					for _, d := range c11ValueSet(out, f) {
+						if d == sib {
+							dup = true
+						}
+					}
+					if !dup {
+						return sib
+					}
+				}
+			}
+		}
 		for k := 0; k < 20; k++ {
 			v := c11cleanValues[rng.Intn(len(c11cleanValues))]
 			in := false
@@ -665,10 +719,14 @@ func c11Mutate(rng *verifkit.Rand, tr c11trace, fields []string) c11trace {
 
 // c11Get calls the real sampler; a panic inside it is recorded as a violation (the test
 // function's deferred Finish would otherwise make the runner see a finished run).
-func c11Get(run *verifkit.Run, name string, s Sampler, t *types.Trace, ctx any) (rate uint, keep bool, key string, ok bool) {
+func c11Get(run *verifkit.Run, name string, s Sampler, t *types.Trace, ctx func() any) (rate uint, keep bool, key string, ok bool) {
 	defer func() {
 		if r := recover(); r != nil {
-			run.Violation("C11/"+name+"/panic", fmt.Sprintf("%s.GetSampleRate panicked: %v", name, r), ctx)
+			var w any
+			if ctx != nil {
+				w = ctx() // witnesses are only rendered when needed
+			}
+			run.Violation("C11/"+name+"/panic", fmt.Sprintf("%s.GetSampleRate panicked: %v", name, r), w)
 			ok = false
 		}
 	}()
@@ -677,7 +735,7 @@ func c11Get(run *verifkit.Run, name string, s Sampler, t *types.Trace, ctx any) 
 }
 
 func c11Ask(run *verifkit.Run, s c11sampler, tr c11trace) string {
-	rate, keep, key, ok := c11Get(run, s.name, s.s, c11RealTrace(tr), map[string]any{"trace": tr.witness()})
+	rate, keep, key, ok := c11Get(run, s.name, s.s, c11RealTrace(tr), func() any { return map[string]any{"trace": tr.witness()} })
 	if !ok {
 		return "<panic>"
 	}
@@ -797,7 +855,7 @@ func TestVerif_C11(t *testing.T) {
 		kept := make([]int, len(scriptedRates))
 		for j := 0; j < perRate*len(scriptedRates); j++ {
 			scripted := scriptedRates[j%len(scriptedRates)]
-			rate, keep, _, ok := c11Get(run, "dynamic", d, tr, map[string]any{"scripted_rate": scripted})
+			rate, keep, _, ok := c11Get(run, "dynamic", d, tr, func() any { return map[string]any{"scripted_rate": scripted} })
 			if !ok {
 				continue
 			}
